@@ -19,7 +19,7 @@ import re
 
 from .facts import tname
 
-MAX_DEPTH = 6
+MAX_DEPTH = 10
 
 
 def strip(v):
@@ -541,8 +541,10 @@ class Evaluator:
     # ---------------------------------------------------------------- calls
     def apply_closure(self, cv, args, ctx):
         cv = strip(cv)
+        was_fnitem = None
         if isinstance(cv, tuple) and cv and cv[0] == 'fnitem' and cv[1] in self.facts.by_path:
             # a named function passed where a closure is expected
+            was_fnitem = cv
             cv = ('closure', cv[1], {})
         if not (isinstance(cv, tuple) and cv[0] == 'closure'):
             return None
@@ -558,6 +560,13 @@ class Evaluator:
         for p, a in zip(ps, args):
             self.bind_pat(p, a, sub)
         v, t = self.ev(cf['thir'], sub)
+        if was_fnitem is not None and not [x for x in walk(t) if x[0] not in ('cat', 'alt', 'eps', 'RET', 'CFG')]:
+            # a pure function passed by name: its application stays the symbolic call `f(args)`, exactly as if it had
+            # been called directly
+            return (('call', tname(was_fnitem[1]), was_fnitem[1], list(args), tuple(was_fnitem[2]), None, None), ['eps'], [])
+        if any(x[0] == 'RET' for x in walk(t)):
+            # early returns of the applied closure / function item are local to it
+            t = ['HELPER', 'closure:' + tname(cv[1]), t]
         return (v, t, sub.returned)
 
     def ev_call(self, e, ctx):
@@ -622,6 +631,10 @@ class Evaluator:
                 v, t, rets = r
                 return (v, cat(pre, t))
             if isinstance(fv, tuple) and fv[0] == 'param_fn':
+                if not str(e.get('ty') or '').startswith('core::result::Result'):
+                    # a callback that cannot fail (e.g. a size estimate `FnOnce(u32) -> usize`)
+                    return (('call', 'callback:' + str(fv[1]), 'callback', [strip(a) for a in args], (), None, e.get('loc')),
+                            cat(pre, ['CALLBACK', fv[1], [strip(a) for a in args], 'infallible']))
                 return (('res', ('cbres',)), cat(pre, ['CALLBACK', fv[1], [strip(a) for a in args]]))
             return (('unknown',), cat(pre, self.opaque('call of an unknown closure value', e, ctx)))
         # ------------------------------------------------ Input effects
@@ -742,7 +755,32 @@ class Evaluator:
                     self.bind_pat(p, a, sub)
             v, t = self.ev(hf['thir'], sub)
             rv = v
+            m = _generic_map(hf, e)
+            if m:
+                t = subst_types(t, m)
+                rv = subst_types(rv, m)
             return (rv, cat(pre, ['HELPER', tname(f), t]))
+        # a crate-private free function that takes neither the output nor the input but has effects of its own
+        # (allocation, ownership transfers, unsafe operations, panics): part of its caller for every path rule
+        if hf is not None and hf.get('thir') and not (passes or passes_sink) and ctx.depth < MAX_DEPTH and not e['trait'] and \
+                hf.get('kind') == 'Fn' and hf.get('vis') != 'Public' and not hf.get('impl') and f not in getattr(self, '_pure_helpers', set()) and \
+                getattr(self, 'inline_effectful', True):
+            sub = Ctx(self, hf, ctx.depth + 1)
+            sub.sinks = ctx.sinks
+            sub.sink_kind = ctx.sink_kind
+            sub.returned = []
+            for p, a in zip(hf['params'], argv):
+                self.bind_pat(p, a, sub)
+            v2, t2 = self.ev(hf['thir'], sub)
+            m = _generic_map(hf, e)
+            if m:
+                t2 = subst_types(t2, m)
+                v2 = subst_types(v2, m)
+            if any(x[0] in ('ALLOC', 'OWN', 'MUTCALL', 'PANIC', 'HOOK', 'DESC', 'ASC') for x in walk(t2)):
+                return (v2, cat(pre, ['HELPER', tname(f), t2]))
+            if not hasattr(self, '_pure_helpers'):
+                self._pure_helpers = set()
+            self._pure_helpers.add(f)
         if passes and not local and f in ('core::slice::<impl [T]>::is_empty', 'core::slice::<impl [T]>::len') and not any(
                 self.is_dest(a) for a in argv):
             return (('call', name, f, argv, tuple(e['ga']), tr, e.get('loc')), pre)
@@ -801,6 +839,39 @@ class Evaluator:
             # the raw bytes of the value, without any framing
             return ['write', sl]
         return self.opaque('callback argument of unrecognised form', e, ctx)
+
+
+def _generic_map(callee, call):
+    """{type parameter of the inlined function: the type it is instantiated with at this call site}, identity entries and
+    lifetimes left out"""
+    gs = callee.get('generics') or []
+    ga = call.get('ga') or []
+    if len(gs) != len(ga):
+        return {}
+    m = {}
+    for g, a in zip(gs, ga):
+        if g.startswith("'") or not isinstance(a, str) or a == g or '{closure' in a or a.startswith("'"):
+            continue
+        if not g[:1].isupper():
+            continue
+        m[g] = a
+    return m
+
+
+def subst_types(x, m, _re=__import__('re')):
+    """instantiate type parameters in every type-carrying string of a term / value"""
+    if isinstance(x, str):
+        if any(g in x for g in m):
+            for g, a in m.items():
+                x = _re.sub(r'(?<![A-Za-z0-9_:])%s(?![A-Za-z0-9_])' % _re.escape(g), a.replace('\\', '\\\\'), x)
+        return x
+    if isinstance(x, tuple):
+        if x and x[0] in ('closure',):
+            return x
+        return tuple([x[0]] + [subst_types(y, m) for y in x[1:]]) if x and isinstance(x[0], str) else tuple(subst_types(y, m) for y in x)
+    if isinstance(x, list):
+        return [x[0]] + [subst_types(y, m) for y in x[1:]] if x and isinstance(x[0], str) else [subst_types(y, m) for y in x]
+    return x
 
 
 def subst_any(x, pred, repl):
